@@ -70,8 +70,8 @@ int main(int argc, char **argv) {
         std::cout << "REPLAY-OK" << std::endl;
         return 0;
     }
-    if (o.thorough) { o.max_exh_n = 6; o.wsmall = {1, 2, 3}; o.nrandom = 3000; o.shuffles = 4; o.rnd_max_dim = 11; }
-    else { o.max_exh_n = 5; o.nrandom = 400; }
+    if (o.thorough) { o.max_exh_n = 7; o.wsmall = {1, 2, 3}; o.nrandom = 40000; o.shuffles = 8; o.rnd_max_dim = 12; o.rnd_max_n = 10; }
+    else { o.max_exh_n = 6; o.nrandom = 1500; }
     Stats st;
     long oracle_cross = 0;
     for_each_graph(o, [&](TGraph &t) {
